@@ -66,6 +66,31 @@ def run(cx):
         confirm(cx, lang, cases_path, mism, by_id, "random-d%d" % depth)
         for c in cases[:2]:
             cx.sample({"src": c["src"], "observed": {k: v for k, v in c["obs"].items() if k in ("k", "v")}})
+    # ---- G leg: operator pairs (minimal parentheses; tree must equal the fully parenthesised one)
+    fams = [("pairs", 0, True), ("skeletons", 3 if cx.quick() else 4, False)]
+    if not cx.quick():
+        fams.append(("triples", 0, True))
+    gstats = {}
+    for fam, d, minimal in fams:
+        cases, cases_path = langlib.run_family(cx, lang, fam, d, minimal)
+        by_id = {c["id"]: c for c in cases}
+        mism, unknown = langlib.tlc_conform(cx, cases, prefix="g_" + fam)
+        total += len(cases)
+        unknown_total += len(unknown)
+        checked += len(cases) - len(unknown)
+        ukn = set(unknown)
+        for c in cases:
+            if c["id"] not in ukn:
+                nontriv.add(c["src"])
+        confirm(cx, lang, cases_path, mism, by_id, "enumerated-" + fam)
+        bad_tree = [c for c in cases if c["obs"].get("tree", "same") != "same" or c["obs"].get("tree_full", "same") != "same"]
+        for c in bad_tree[:20]:
+            cx.violation("%s: the parser builds a different tree for the minimally parenthesised rendering: src=%r tree=%s tree_full=%s" % (
+                fam, c["src"][-200:], c["obs"].get("tree"), c["obs"].get("tree_full")),
+                {"leg": "tree-" + fam, "src": c["src"], "src_full": c.get("src_full"), "ast": c["ast"]})
+        gstats[fam] = {"programs": len(cases), "unknown": len(unknown), "depth": d}
+        cx.sample({"family": fam, "src": cases[len(cases) // 2]["src"][-200:]})
+    cx.cover["enumerated_families"] = gstats
     cx.cover.update({
         "traces_validated_against_impl": checked,
         "programs": total,
